@@ -132,7 +132,9 @@ func c15Path(rng *rand.Rand, rw c15Rewrite) string {
 var c15QParts = []string{"%74oken=enc", "tok%65n=enc2", "debu%67=1", "de+bug=x", "tok=1", "tokens=x", "d=2", "Token=upper", "a=1", "a=2", "b=x%20y", "b=x+y", "token=secret", "token=s2", "debug", "debug=", "c=%26%3D", "empty=", "flag", "k%20ey=v", "z=%C3%BC", "a=3"}
 
 // queries net/url cannot parse completely; none of them names a parameter any rule strips
-var c15OddQueries = []string{"q=100%&page=2", "filter=a;b&x=1", "r=%zz&keep=1", "a=1&b=%&c=3", "x=1;y=2"}
+var c15OddQueries = []string{"q=100%&page=2", "filter=a;b&x=1", "r=%zz&keep=1", "a=1&b=%&c=3", "x=1;y=2",
+	// names that cannot be decoded, with and without a value
+	"100%=q&page=2", "ab%zzcd=v&keep=1", "a=1&50%&c=3", "%=x", "p=1&%zz"}
 
 func c15Query(rng *rand.Rand) string {
 	if rng.IntN(8) == 0 {
